@@ -54,6 +54,15 @@ func (fv *FV) assumeSpecG(st *State, e *Expr, env *Env, guard string, depth int)
 		if strings.Contains(a, unknownTypeID) {
 			return
 		}
+		// an antecedent the path condition already decides (contract case splits) is simplified away:
+		// the clause is dropped when it is refuted and assumed unguarded when it holds
+		if st.pcHas("(not " + a + ")") {
+			return
+		}
+		if st.pcHas(a) {
+			fv.assumeSpecG(st, e.Args[1], env, guard, depth+1)
+			return
+		}
 		g := a
 		if guard != "" {
 			g = fmt.Sprintf("(and %s %s)", guard, a)
